@@ -22,6 +22,7 @@ def main(argv=None):
     ap.add_argument("--workers", type=int, default=None)
     ap.add_argument("--wall", type=float, default=None)
     ap.add_argument("--no-evidence", action="store_true")
+    ap.add_argument("--counters", action="store_true", help="print the fault / probe counters of the batch (development aid)")
     args = ap.parse_args(argv)
     tier = os.environ.get("VERIF_TIER") or args.tier
     if tier not in ("quick", "thorough"):
@@ -106,6 +107,10 @@ def main(argv=None):
     if n_viol:
         rc = 1  # a violation reproduced from its replay file in a fresh interpreter stands, whatever else went wrong
     wall_s = time.time() - t0
+    if args.counters:
+        for k in sorted(agg["counters"]):
+            if k.startswith(("probe:", "fault:")):
+                print(f"  counter {k} = {agg['counters'][k]}")
     if not args.no_evidence:
         from .evidence import write_evidence
 
